@@ -135,14 +135,16 @@ class ResourceManager:
             ReservedResources with reserved resources if successful.
             Returns None if the request could not be fulfilled.
         '''
+        # Validate the whole request before any resource is taken.
+        for resource_name, amount in request.items():
+            if amount < 0:
+                raise ValueError(f'Requested amount for {resource_name} is less than 0.')
         filtered_request = {name: n for name, n in request.items() if n > 0}
         if self._can_fulfill_request(filtered_request):
             # Reduce pools of available resources.
             for resource_name, amount in request.items():
                 if amount == 0:
                     continue
-                if amount < 0:
-                    raise ValueError(f'Requested amount for {resource_name} is less than 0.')
                 in_use, max_available = self._resources[resource_name]
                 self._resources[resource_name] = (in_use + amount, max_available)
                 self._record_resource_amount_update(resource_name)
